@@ -1269,41 +1269,38 @@ class Ctx:
         return segs[0] in self.prog.crates or not segs[0] in ("std", "core", "alloc")
 
     def dyn_dispatch(self, trait, method, t, args, path):
-        a0 = args[0]
-        v = a0
-        for _ in range(4):
-            if type(v) is Ref:
-                v = v.get()
-            elif isinstance(v, BoxObj):
-                v = v.fields[0]
-            elif isinstance(v, GuardObj):
-                v = v.lock.fields[0]
-            else:
-                break
+        """receiver is &dyn Trait / &T with T a type parameter: dispatch on the runtime type"""
+        w = args[0]
+        f = None
         tyname = None
-        if type(v) is Agg:
-            tyname = Program._last(v.ty)
-        elif isinstance(v, BoxObj) and v.kind == "Arc":
-            tyname = "Arc"
-        f = self.prog.traitimpl.get((trait, tyname, method)) if tyname else None
+        for _ in range(8):
+            inner = w.get() if type(w) is Ref else w
+            if type(inner) is Agg:
+                tyname = Program._last(inner.ty)
+                f = self.prog.traitimpl.get((trait, tyname, method))
+                break
+            if isinstance(inner, BoxObj):
+                if inner.kind == "Arc":
+                    tyname = "Arc"
+                    f = self.prog.traitimpl.get((trait, "Arc", method))
+                    if f is not None:
+                        break
+                w = Ref(inner.fields, 0)
+                continue
+            if isinstance(inner, GuardObj):
+                w = Ref(inner.lock.fields, 0)
+                continue
+            if type(inner) is Ref:
+                w = inner
+                continue
+            break
         if f is None:
             mk = "<_ as %s>::%s" % (t.b.head(), method)
             m = self.models.exact.get(mk)
             if m is not None:
                 return m(self, t, args)
             raise Unmodelled("dyn dispatch %s on %r" % (path, tyname))
-        # receiver: the impl takes &Self; a0 may be a pointer to a Box<dyn T> slot or to the value itself
-        recv = a0
-        w = a0
-        while type(w) is Ref and not (type(w.get()) is Agg and Program._last(w.get().ty) == tyname):
-            inner = w.get()
-            if isinstance(inner, BoxObj):
-                w = Ref(inner.fields, 0)
-            elif type(inner) is Ref:
-                w = inner
-            else:
-                break
-        recv = w
+        recv = w if type(w) is Ref else new_ref(w)
         return self.call_function(f, [recv] + list(args[1:]))
 
 
